@@ -25,11 +25,13 @@ def mask_msf(data):
 
 
 class Job:
-    def __init__(self, kind, lines, files_out, descr):
+    def __init__(self, kind, lines, files_out, descr, noise=()):
         self.kind = kind
         self.lines = lines          # script lines with {S} slot placeholder and {O<k>} output placeholders
         self.files_out = files_out  # list of (placeholder, fmt)
         self.descr = descr
+        self.noise = set(noise)     # indices of lines that are calls expected to FAIL; they run inside the history only and must leave
+                                    # no trace: the solo replay omits them and the digest ignores their records
 
 
 def make_seq_file(ck, rng, kind=None, equal=False, n=None, long=False):
@@ -48,7 +50,37 @@ def make_seq_file(ck, rng, kind=None, equal=False, n=None, long=False):
 
 
 def gen_job(ck, rng):
-    k = rng.choice(["arr", "arr_equal", "rrwf", "rrwf", "rrwf_multi", "cmp", "rejected", "churn", "churn", "reread", "reread", "big_threads", "failed_read", "one_record"])
+    k = rng.choice(["arr", "arr_equal", "rrwf", "rrwf", "rrwf_multi", "cmp", "rejected", "churn", "churn", "reread", "reread", "big_threads", "failed_read", "one_record",
+                    "failed_calls_between", "failed_calls_between"])
+    if k == "failed_calls_between":
+        # read A; [read of a file of the other kind: refused]; read C; [run with a type of the other kind: rejected]; [run with an infinite penalty:
+        # rejected]; run; dump; write; free  -- the bracketed calls fail and must not influence the calls after them
+        kind, seqs = make_seq_file(ck, rng, n=rng.randint(4, 16))
+        names = gen.names(rng, len(seqs), "s")
+        recs = list(zip(names, seqs))
+        cut = rng.randint(2, len(recs) - 2)
+        fa, fc, fb = ck.tmp(".fa"), ck.tmp(".fa"), ck.tmp(".fa")
+        common.write_bytes(fa, fmt.write_fasta(recs[:cut]))
+        common.write_bytes(fc, fmt.write_fasta(recs[cut:]))
+        okind, oseqs = make_seq_file(ck, rng, kind=("protein" if kind == "dna" else "dna"), n=rng.randint(3, 30))
+        common.write_bytes(fb, fmt.write_fasta([("o%d" % i, s_) for i, s_ in enumerate(oseqs)]))
+        wrong = rng.choice([3, 4]) if kind == "dna" else rng.choice([0, 1, 2])
+        ty = kal.TYPES[rng.choice(kal.ADMISSIBLE[kind])]
+        nt = rng.choice([1, 4])
+        lines = ["read {S} %s" % fa, "read {S} %s" % fb, "read {S} %s" % fc, "run {S} %d %d -1 -1 -1" % (nt, wrong), "run {S} %d %d inf -1 -1" % (nt, ty),
+                 "run {S} %d %d -1 -1 -1" % (nt, ty), "dump {S}", "write {S} fasta {O0}", "free {S}"]
+        noise = [1]
+        which = rng.choice(["merge", "type", "inf", "all"])
+        if which in ("type", "all"):
+            noise.append(3)
+        if which in ("inf", "all"):
+            noise.append(4)
+        if which not in ("merge", "all"):
+            noise.remove(1)
+        keep = [i for i in range(len(lines)) if i in noise or i not in (1, 3, 4)]
+        lines2 = [lines[i] for i in keep]
+        noise2 = [j for j, i in enumerate(keep) if i in noise]
+        return Job(k, lines2, [("{O0}", "fasta")], {"kind": kind, "n": len(recs), "failing_calls": which, "threads": nt}, noise=noise2)
     if k == "failed_read":
         g = ck.tmp(".txt")
         common.write_bytes(g, rng.choice(["hello world\nthis is not an alignment\n", "", "\n\n\n", "CLUSTAL W multiple sequence alignment\n\n"]))
@@ -65,6 +97,9 @@ def gen_job(ck, rng):
         nt = rng.choice([1, 2, 8, 64])
         return Job(k, ["arr %s %d %d -1 -1 -1" % (f, nt, ty)], [], {"kind": kind, "n": len(seqs), "equal_lengths": k == "arr_equal", "threads": nt})
     if k == "churn":
+        if rng.random() < 0.4:
+            # the application changes the process-wide OpenMP thread setting for its own parallel region
+            return Job(k, ["ompset %d" % rng.choice([1, 2, 16, 32])], [], {})
         return Job(k, ["churn %d %d" % (rng.randint(1, 10 ** 6), rng.choice([200, 2000]))], [], {})
     if k in ("rrwf", "rrwf_multi", "big_threads", "reread"):
         long_ = (k == "reread" and rng.random() < 0.6)
@@ -152,6 +187,7 @@ def run_history(ck, paths, hidx, env, tier):
     jobs = [gen_job(ck, rng) for _ in range(njobs)]
     # interleave: up to 3 jobs alive; each alive job owns two slots
     script = []
+    isnoise = []   # per script line: a call that is expected to fail and to leave no trace
     owner = []     # per script line: job index
     outs_all = {}
     alive = []     # (job index, remaining lines)
@@ -163,17 +199,20 @@ def run_history(ck, paths, hidx, env, tier):
             s = free_slots.pop()
             lines, outs = instantiate(ck, jobs[nxt], s[0], s[1])
             outs_all[nxt] = outs
-            alive.append([nxt, lines, s])
+            alive.append([nxt, lines, s, 0])
             nxt += 1
         max_alive = max(max_alive, len(alive))
         a = rng.choice(alive)
         script.append(a[1].pop(0))
         owner.append(a[0])
+        isnoise.append(a[3] in jobs[a[0]].noise)
+        a[3] += 1
         if not a[1]:
             alive.remove(a)
             free_slots.append(a[2])
     script.append("live")
     owner.append(-1)
+    isnoise.append(False)
     r, recs = common.kvdrv(paths, script, env=env, scratch=ck.scratch, timeout=1200, cpu=900)
     ctx = {"history": hidx, "variant": paths["variant"], "env": env, "script": script if len(script) < 120 else script[:120]}
     if ck.proc_violations(r, ctx, allow_rcs=(0,)):
@@ -182,7 +221,13 @@ def run_history(ck, paths, hidx, env, tier):
         ck.violation("history-incomplete", "%d records for %d operations" % (len(recs), len(script)), ctx)
         return
     per_job = {}
-    for rec, o in zip(recs, owner):
+    for rec, o, nz in zip(recs, owner, isnoise):
+        if nz:
+            if rec.get("rc") == 0 and rec.get("op") in ("read", "run"):
+                ck.count("expected_failures_that_succeeded")
+            else:
+                ck.count("failing_calls_executed_inside_histories")
+            continue
         per_job.setdefault(o, []).append(rec)
     live = per_job[-1][0]
     ck.count("histories")
@@ -201,6 +246,7 @@ def run_history(ck, paths, hidx, env, tier):
         if job.kind == "churn":
             continue
         lines, outs = instantiate(ck, job, 0, 1)
+        lines = [ln for i, ln in enumerate(lines) if i not in job.noise]
         r2, recs2 = common.kvdrv(paths, lines, env=env, scratch=ck.scratch, timeout=600, cpu=300)
         c2 = dict(ctx, job=ji, job_kind=job.kind, job_descr=job.descr, solo_script=lines)
         if ck.proc_violations(r2, c2, allow_rcs=(0,)):
